@@ -25,6 +25,7 @@ type Ctx struct {
 	local func(name string) (CVal, bool)
 	depth int
 	iter  *Ctx // context of the loop header (start of the current iteration), for iter(e)
+	outer *Ctx // context of the enclosing loop's header (start of its current iteration), for outer(e)
 }
 
 func (c *Ctx) with(vars map[string]CVal) *Ctx {
@@ -209,6 +210,12 @@ func (c *Ctx) eval(x Expr) CVal {
 		return c.selField(b, x.F, x)
 	case *EIndex:
 		b := c.eval(x.X)
+		if b.GT != nil {
+			if mt, ok := b.GT.Underlying().(*types.Map); ok {
+				k := c.eval(x.I)
+				return CVal{T: e.mapGet(mt, b.T, k.T, c.st), GT: mt.Elem()}
+			}
+		}
 		i := c.evalInt(x.I)
 		if b.GT != nil {
 			switch u := b.GT.Underlying().(type) {
@@ -294,6 +301,23 @@ func (c *Ctx) selField(b CVal, f string, x Expr) CVal {
 func (c *Ctx) evalCall(x *ECall) CVal {
 	e := c.e
 	switch x.Fn {
+	case "outer":
+		if len(x.Args) != 1 {
+			cfail("outer takes one argument")
+		}
+		if c.outer == nil {
+			cfail("outer() used outside a nested loop")
+		}
+		sub := *c.outer
+		sub.vars = map[string]CVal{}
+		for k, v := range c.outer.vars {
+			sub.vars[k] = v
+		}
+		for k, v := range c.vars {
+			sub.vars[k] = v
+		}
+		sub.depth = c.depth + 1
+		return sub.eval(x.Args[0])
 	case "iter":
 		if len(x.Args) != 1 {
 			cfail("iter takes one argument")
@@ -353,6 +377,14 @@ func (c *Ctx) evalCall(x *ECall) CVal {
 	case "allocated":
 		v := c.evalInt(x.Args[0])
 		return CVal{T: tAnd(Term{app("<=", "0", v.S), sBool}, Term{app("<", v.S, c.st.alloc.S), sBool})}
+	case "has": // has(m, k): key k is present in map m
+		mv := c.eval(x.Args[0])
+		mt, ok := mv.GT.Underlying().(*types.Map)
+		if !ok {
+			cfail("has: not a map")
+		}
+		k := c.eval(x.Args[1])
+		return CVal{T: e.mapHas(mt, mv.T, k.T, c.st)}
 	case "zeros": // the all-zero array of integers
 		return CVal{T: Term{"((as const (Array Int Int)) 0)", arrSort(sInt)}}
 	case "as": // as(x, T): view an interface / pointer value as *T
@@ -437,7 +469,7 @@ func (c *Ctx) evalCall(x *ECall) CVal {
 		vars[p.Name] = v
 	}
 	// pure functions see only their parameters (and the heap)
-	sub := &Ctx{e: e, st: c.st, old: c.old, vars: vars, depth: c.depth + 1, iter: c.iter}
+	sub := &Ctx{e: e, st: c.st, old: c.old, vars: vars, depth: c.depth + 1, iter: c.iter, outer: c.outer}
 	r := sub.eval(pf.Body)
 	r.T = e.def("r_"+x.Fn, r.T)
 	return r
